@@ -171,7 +171,6 @@ Sorted(K) == SelectSeq(KeyOrder, LAMBDA k : k \in K /\ k.class = "predef")
 ReqDims == UNION {[K -> Str] : K \in KeySets}
 
 TileFlows == {"tms", "kml", "wmts_kvp", "wmts_rest"}
-PathFlows == {"tms", "kml", "wmts_rest"}      \* layer (and dimension values) are single URL path segments
 Rejects == {"reject_layer", "reject_dim", "reject_tile", "notfound"}
 
 NoReq == [flow |-> None, layer |-> <<>>, dims |-> <<>>, tile |-> <<>>, path |-> <<>>]
